@@ -158,7 +158,7 @@ func init() {
 		g, fs := c.fixGraph(key)
 		runKINDIn(c, g, r, "KIND", fixFuncs(c, g, fs), nil)
 	}
-	registerFixture(fixtureCheck{Group: "kind", Pkg: "kind/bad", Run: kind, Want: []string{"kind/bad.Count:Len#1", "kind/bad.Num:Float#1", "kind/bad.Get:Interface#1", "kind/bad.keys:MapKeys#1"}})
+	registerFixture(fixtureCheck{Group: "kind", Pkg: "kind/bad", Run: kind, Want: []string{"kind/bad.Count:Len#1", "kind/bad.Num:Float#1", "kind/bad.Get:Interface#1", "kind/bad.keys:MapKeys#1", "kind/bad.Wrap:Set.arg#1", "kind/bad.Wrap:Append.arg#1"}})
 	registerFixture(fixtureCheck{Group: "kind", Pkg: "kind/good", Run: kind})
 	registerFixture(fixtureCheck{Group: "lock", Pkg: "lock/bad", Run: lock, Want: []string{"lock/bad.Register:registry-access#1", "lock/bad.Compile:registry-noescape#1", "lock/bad.Leak:mu-exit", "lock/bad.Put:table-access#1"}})
 	registerFixture(fixtureCheck{Group: "lock", Pkg: "lock/good", Run: lock})
